@@ -77,7 +77,8 @@ def run_case(ctx, classes, scen, cause=None, prefix=0):
             ctx.count("monitor:connect() on a latched, unconnected object checked")
             probes = [e for e in world.log.events[top["start"]:top["end"]] if e["kind"] == "write" and e["data"] == b"v\r"]
             supported = world.board.product.startswith("EBB") and \
-                tuple(int(x) for x in world.board.version.split(".")) >= (3, 0, 2)
+                tuple(int(x) for x in world.board.version.split(".")) >= \
+                tuple(int(x) for x in type(world.obj).MIN_VERSION_STRING.split("."))
             if "raised" in top or not probes or (supported and world.obj.__dict__.get("port") is None):
                 extra.append({"prop": "C04", "step": i, "kind": "connect() no longer possible on a latched object",
                               "method": "connect", "probes": len(probes), "raised": repr(top.get("raised"))})
